@@ -222,6 +222,9 @@ class StmtMixin:
             for s1, (base, key) in outs:
                 base = self.unwrap_opt(s1, base, tgt, "subscript-of-None")
                 ty = base.ty
+                if ty == Display and len(base.t) == 0 and key.ty not in (Display, PyFunc) and val.ty not in (Display, PyFunc):
+                    # d = {} ... d[k] = v : the dictionary takes its key / value types from the first entry
+                    base = self.empty(T.Dict(key.ty, val.ty)); ty = base.ty
                 if isinstance(ty, T.Dict):
                     k = self.coerce(key, ty.k).t
                     nv = SV(ty, T.dict_mk(ty, z3.Store(T.dict_dom(ty, base.t), k, z3.BoolVal(True)),
